@@ -132,7 +132,8 @@ TEXT = {
         "level": "TLC checks on accepted items x 4 encodings: every proper prefix rejected, every suffix of a 7-element suffix set gives "
                  "ExtraneousData, Parse is prefix-free, and the same for the header map inside a protected bstr. The crate is run on every cut "
                  "point and suffix of those wires and of every accepted wire of five decode instances, plus byte-API vs Value-API agreement in "
-                 "both directions. MC_Parse adds every short byte string (exhaustive, see C01) decoded as 21 types: DecodeFailed iff no item "
+                 "both directions, the tagged entry point of the six taggable types included (tag head of every width before every accepted "
+                 "item: same value as parse + unwrap + convert, one more byte is extraneous data, proper prefixes rejected). MC_Parse adds every short byte string (exhaustive, see C01) decoded as 21 types: DecodeFailed iff no item "
                  "parses, ExtraneousData iff an item parses and bytes remain, otherwise the conversion of the parsed item; the parser model "
                  "itself is compared with ciborium on each string (value, bytes consumed, class of failure).",
         "note": TRUST, "technique": MC + " (spec/mc/MC_OneItem.tla); prefix/suffix/API-agreement sweep on the crate"},
